@@ -361,6 +361,7 @@ def c10_case(case):
     items, txt, ts = case
     t0 = to_ts(ts)
     ws = [x[1] for x in items if x[0] == "w"]; tg = [x[1] for x in items if x[0] == "t"]; e = [x[1] for x in items if x[0] == "e"]
+    ordinary = [x[1] for x in items if x[0] == "o"]
     norm = C._preprocess_string(txt)
     ms = C._match_regex(re.sub('#[a-zA-Z0-9_-]+', '', norm).strip(), _regex)
     stripped = re.sub('#[a-zA-Z0-9_-]+', '', norm).strip()
@@ -376,6 +377,12 @@ def c10_case(case):
         return {"fail": "exception %s" % type(x).__name__}
     want_labels = [t[1:] for t in tg]
     probs = []
+    if ordinary:
+        if r.labels != want_labels: probs.append("labels %r != %r" % (r.labels, want_labels))
+        if any(t in r.subject for t in tg): probs.append("hashtag in subject %r" % r.subject)
+        if r.resolution != r1.resolution or r.subject != r1.subject: probs.append("hashtags change resolution or rest of subject: %r / %s vs %r / %s" % (r.subject, r.resolution, r1.subject, r1.resolution))
+        if probs: return {"fail": "; ".join(probs)}
+        return {"ok": True}
     if r.labels != want_labels: probs.append("labels %r != %r" % (r.labels, want_labels))
     if r0.labels != want_labels: probs.append("labels on the no-match path %r != %r" % (r0.labels, want_labels))
     sw = r.subject.split()
@@ -400,7 +407,8 @@ def sweep_c10(rng, tier):
     inert = ["xyzzy", "qwrk", "zoo", "gym", "jog", "привет", "会议", "Lunch", "Bob", "rent", "milk", "call", "plugh"]
     # incl. hashtags that are prefixes / extensions of one another and repeated ones
     tags = ["#fun", "#work-1", "#a", "#_x", "#Home_2", "#b-c", "#follow-up", "#to-do", "#urgent", "#family", "#work", "#a1", "#ab", "#fun2", "#b", "#urgent-2", "#v", "#v2", "#follow"]
-    exprs = ["tomorrow", "friday 8pm-9pm", "12.12.2020", "next monday", "8pm", "3 days", "heute 14 uhr", "5th of may", "May 5th 2:30 in the afternoon", "monday", "tomorrow 5pm"]
+    exprs = ["tomorrow", "friday 8pm-9pm", "12.12.2020", "next monday", "8pm", "3 days", "heute 14 uhr", "5th of may", "May 5th 2:30 in the afternoon", "monday", "tomorrow 5pm",
+             "12-12-2020", "12-12-2020 - 14-12-2020", "8pm-9pm"]
     seps = [" ", "  ", ", ", "; ", "\t", " (", ") ", " ", " ", "  "]
     ts = (2018, 3, 7, 12, 43, 0)
     cases = []
@@ -409,6 +417,10 @@ def sweep_c10(rng, tier):
         ws = [rng.choice(inert) for _ in range(rng.randint(0, 4))]
         tg = [rng.choice(tags) for _ in range(rng.randint(0, 3))]
         items = [("w", w) for w in ws] + [("t", t) for t in tg] + ([("e", rng.choice(exprs))] if rng.random() < 0.85 else [])
+        if rng.random() < 0.25:
+            # ordinary words (ones a time pattern does match: the property's quantifier names them): hashtags next to them must not
+            # change anything either - only the hashtag clauses are checked on such texts
+            items += [("o", rng.choice(["at", "on", "first", "may", "one", "march", "um", "am", "to", "in"])) for _ in range(rng.randint(1, 2))]
         rng.shuffle(items)
         if not items: continue
         txt = "".join(x[1] + rng.choice(seps) for x in items).rstrip() if rng.random() < 0.8 else " ".join(x[1] for x in items)
@@ -489,7 +501,7 @@ def sweep_c11(rng, tier):
     from ctparse.time.auto_corpus import corpus as ac
     P = lambda s: tuple(datetime.strptime(s, "%Y-%m-%dT%H:%M").timetuple()[:5]) + (0,)
     ex = [(t, P(tss)) for _, tss, tests in corpus for t in tests] + samp(rng, [(t, P(tss)) for _, tss, tests in ac for t in tests], 400 if tier == "thorough" else 60)
-    ex += [(t, (2018, 3, 7, 12, 43, 0)) for t in ["5pm - 7pm", "12.12.2020 - 14.12.2020", "übermorgen 5pm", "5. märz", "nächste woche freitag", "in fünf tagen", "für zwölf tage", "8 uhr - 9 uhr", "früh am morgen", "spätestens morgen", "dreißig tage"]]
+    ex += [(t, (2018, 3, 7, 12, 43, 0)) for t in ["Hauptstraße morgen 15 Uhr", "Fußball tomorrow 5pm", "Spaß 12.05.2020 von 8 bis 10", "5pm - 7pm", "12.12.2020 - 14.12.2020", "übermorgen 5pm", "5. märz", "nächste woche freitag", "in fünf tagen", "für zwölf tage", "8 uhr - 9 uhr", "früh am morgen", "spätestens morgen", "dreißig tage"]]
     # grammar expressions the corpora lack (no '12 am' in them): 12-hour clock forms with every marker spelling of the pattern
     # language, at the boundary hours (all hours in the thorough tier), and words sampled from every enumerable pattern language
     try:
@@ -1002,6 +1014,12 @@ def c13_text(job):
         for k, v in mb.items():
             if v > bound.get(k, 10 ** 9):
                 fails.append({"text": text, "ts": list(ts), "opts": {"depth": depth}, "expected": "at most %d %s operations between two deadline checks" % (bound[k], k), "observed": "%d" % v, "what": "C13 work between checks"})
+        # the phase before the first rule application handles the candidate sequences one by one: one analysis and one scoring
+        # per deadline check, however many sequences there are (their number grows exponentially with repeated tokens)
+        first_rule = next((i for i, (k, _) in enumerate(log) if k == "rule"), len(log))
+        mb0 = max_between(log[:first_rule])
+        if mb0.get("score", 0) > 1:
+            fails.append({"text": text, "ts": list(ts), "opts": {"depth": depth}, "expected": "at most 1 scoring between two deadline checks while the candidate sequences are set up", "observed": "%d" % mb0["score"], "what": "C13 work between checks"})
         step = 1 if (reads <= (2000 if tier == "thorough" else 120)) else max(1, reads // (600 if tier == "thorough" else 100))
         # wall-time budget per text: boundary deadlines first, the rest in random order until the budget is used up
         import time as _time
@@ -1346,6 +1364,26 @@ def c15_case(case):
         if val_key(p.resolution) + ((p.resolution.mstart, p.resolution.mend),) != k: probs.append("a candidate changed after it was yielded"); break
     for p, k in yielded[:6]:
         if not replay_trace(text, t0, p.production, k[:-1]): probs.append("reported production %s is not a derivation of %s" % (p.production, p.resolution)); break
+    # the same search with latent-time anchoring switched on: anchoring is post-processing of each yielded candidate, so the stream
+    # must be the element-wise anchored form (computed here on private deep copies) of the stream without anchoring, and what was
+    # yielded must not change afterwards
+    if not probs:
+        try:
+            from ctparse.time.postprocess_latent import apply_postprocessing_rules
+            want = [val_key(apply_postprocessing_rules(t0, copy.deepcopy(p.resolution))) for p, _ in yielded]
+            snaps = []
+            for p in ctparse_gen(text, ts=t0, timeout=0, max_stack_depth=o["depth"], latent_time=True, scorer=mk()):
+                if p is None: continue
+                snaps.append((p, val_key(p.resolution) + ((p.resolution.mstart, p.resolution.mend),)))
+            got_l = [k[:-1] for _, k in snaps]
+            if o["scorer"] != "random" or True:
+                if got_l != want:
+                    bad = [g for g in got_l if g not in want][:2]
+                    probs.append("with latent_time the stream is not the anchored form of the stream without: %s" % (bad or "order/length differs"))
+            for p, k in snaps:
+                if val_key(p.resolution) + ((p.resolution.mstart, p.resolution.mend),) != k: probs.append("a candidate changed after it was yielded (latent_time on)"); break
+        except Exception as e:
+            probs.append("exception %s with latent_time on" % type(e).__name__)
     if probs: return {"fail": probs}
     return {"ok": len(yielded), "closure": cnt}
 
@@ -1572,7 +1610,10 @@ def sweep_c17(rng, tier):
     ts = datetime(2018, 3, 7, 12, 43)
     golds = [("monday morning", Time(DOW=0, POD="morning")), ("Montag früh", Time(DOW=0, POD="morning")), ("tuesday evening", Time(DOW=1, POD="evening")), ("tomorrow 5pm", Time(2018, 3, 8, 17, 0)),
              ("3 days", Duration(3, DurationUnit.DAYS)), ("two nights", Duration(2, DurationUnit.NIGHTS)), ("friday 8pm-9pm", Interval(Time(2018, 3, 9, 20, 0), Time(2018, 3, 9, 21, 0))),
-             ("12.12.2020", Time(2020, 12, 12)), ("lunch 12.12.2020 with bob", Time(2020, 12, 12)), ("3 days", Duration(3, DurationUnit.HOURS)), ("before 5pm", Interval(None, Time(hour=17, minute=0)))]
+             ("12.12.2020", Time(2020, 12, 12)), ("lunch 12.12.2020 with bob", Time(2020, 12, 12)), ("3 days", Duration(3, DurationUnit.HOURS)), ("before 5pm", Interval(None, Time(hour=17, minute=0))),
+             # bare clock values and ranges: what the parser would anchor to a date at run time stays un-anchored in the training labels
+             ("8:00 pm", Time(hour=20, minute=0)), ("5pm", Time(hour=17, minute=0)), ("call at 17:30", Time(hour=17, minute=30)),
+             ("8:00 pm - 9:00 pm", Interval(Time(hour=20, minute=0), Time(hour=21, minute=0)))]
     try:
         ds = load_timeparse_corpus(os.path.join(REPO, "datasets", "timeparse_corpus.json"))
         extra = samp(rng, list(ds), 60 if tier == "thorough" else 12)
